@@ -160,14 +160,23 @@ def concrete_expression_classes():
     return sorted(set(out), key=lambda c: c.__name__)
 
 
-def representative(L, cls):
-    """an instance of the expression class whose sub-expressions are abstract children (so that anything they do is visible)"""
+def representative(L, cls, flavor='abstract'):
+    """an instance of the expression class whose sub-expressions are abstract children (so that anything they do is visible), or --
+    flavor 'safe-operands' -- plain local variables, i.e. operands is_safe itself accepts (a composite of safe parts is where a
+    too generous is_safe would show)"""
     from hidv.harness.vcg import SPAN
     from hidc.ast import ArrayType
     from hidc.codegen.symbols import AccessMode
     from hidc.lexer.tokens import Ident
     A = ast
-    o = lambda n, t=I: L.opaque(n, t)
+    if flavor == 'safe-operands':
+        o = lambda n, t=I: L.local(n, t)
+        if cls in (A.IntValue, A.ByteValue, A.BoolValue, A.StringValue, A.VariableLookup, A.FuncCall, A.ArrayLiteral, A.ArrayInitializer, A.StringToByteArray, A.Volatile):
+            return None
+        if cls is A.LengthLookup: return cls(L.array_var('v', I, 'local', AccessMode.RW), SPAN.end)
+        if cls is A.ArrayLookup: return cls(L.array_var('v', I, 'local', AccessMode.RW), o('i'), SPAN.end)
+    else:
+        o = lambda n, t=I: L.opaque(n, t)
     if cls in (A.Add, A.Sub, A.Mul, A.Div, A.Mod): return cls(SPAN, o('a'), o('b'))
     if cls in (A.Lt, A.Le, A.Gt, A.Ge, A.Eq, A.Ne): return cls(SPAN, o('a'), o('b'))
     if cls in (A.And, A.Or): return cls(SPAN, o('a', B), o('b', B))
@@ -193,7 +202,26 @@ def representative(L, cls):
     return None
 
 
-def run_safe_contract(w):
+def replay_safe(w, unchecked):
+    """whole programs: a computed left operand combined with right operands of every shape is_safe may accept"""
+    from hidv.sphinx import svm
+    a, b, x, y = 3, 4, 17, 5
+    exprs = [('(a + b) + x / y', (a + b) + x // y), ('(a * b) - x % y', (a * b) - x % y), ('(a + b) * (x - y)', (a + b) * (x - y)), ('(a - b) + (x * y)', (a - b) + x * y),
+             ('(a + b) + v.length', a + b + 3), ('(a + b) + v[1]', a + b + 20), ('(a + b) + (-x)', a + b - x), ('(a * b) + (x is byte is int)', a * b + x),
+             ('(a + b) + s.length', a + b + 2)]
+    obs = []
+    for text, want in exprs:
+        src = 'empty @is_you(int a, int b, int x, int y) { int[] v = [10, 20, 30]; string s = "hi"; write(%s); }' % text
+        try:
+            res, vm = svm.run_hid(src, args=[str(a), str(b), str(x), str(y)], word_size=w, unchecked=unchecked)
+            if res != 'win' or vm.out != str(want).encode():
+                obs.append({'expression': text, 'arguments': [a, b, x, y], 'printed': vm.out.decode('latin1'), 'documented': str(want), 'unchecked': unchecked})
+        except Exception as e:
+            obs.append({'expression': text, 'raises': repr(e)})
+    return {'reproduced': bool(obs), 'how': 'hidc-compiled programs on hidv.sphinx.svm', 'observed': obs[:3] or 'the sample programs print the documented values'}
+
+
+def run_safe_contract(w, unchecked=False):
     """L(is_safe): for every expression class the real is_safe() accepts, the code of get_expr_value(r, e) writes only r: no child runs,
     no event, no store, every other named word unchanged.  (is_safe decides whether an already computed left operand may stay in a register.)"""
     import time as _t
@@ -202,23 +230,27 @@ def run_safe_contract(w):
     from hidc.codegen import asm as _asm
     from hidv.harness.lemma import FAILED as _F, DISCHARGED as _D, UNDECIDED as _U
     res = []
+    PR = ('C01', 'C09') + (('C15',) if unchecked else ())
     never_generated = {'Is', 'Parameter', 'PrimitiveValue', 'TypeCast', 'Expression', 'Assignable', 'Operator', 'Binary', 'Unary', 'BooleanOp', 'LogicalOp', 'CompareOp',
                        'EqualityOp', 'ArithmeticOp', 'BinaryArithmeticOp', 'UnaryArithmeticOp'}
     for cls in concrete_expression_classes():
         if cls.__name__ in never_generated:
             continue
-        for r_out in ('r0', 'r1', 'r2'):
-            L = Lemma(f'expr/is_safe/{cls.__name__}/{r_out}/w{w}', w, False, src=None)
+        for r_out, flavor in itertools.product(('r0', 'r1', 'r2'), ('abstract', 'safe-operands')):
+            tagname = ('' if flavor == 'abstract' else 'safe-operands/') + ('unchecked/' if unchecked else '')
+            L = Lemma(f'expr/is_safe/{cls.__name__}/{tagname}{r_out}/w{w}', w, unchecked, src=None)
             L.functions.update(['hidc.codegen.generator.CodeGen.is_safe', 'hidc.codegen.generator.CodeGen.get_expr_value', 'hidc.codegen.generator.CodeGen.eval_expr'])
             t0 = _t.time()
             try:
-                e = representative(L, cls)
+                e = representative(L, cls, flavor)
+                if e is None and flavor != 'abstract':
+                    continue
                 if e is None:
                     L.add('SAFE-CONTRACT', _U, t0, ('C01',), {'message': f'no representative for expression class {cls.__name__} (new class? add a lemma)'})
                     res += L.results; continue
                 safe = L.cg.is_safe(e)
                 if not safe:
-                    L.add('SAFE-CONTRACT', _D, t0, ('C01', 'C09'), {'formula': f'{cls.__name__}: not treated as safe (left operands are kept across it)'}, backend='harness')
+                    L.add('SAFE-CONTRACT', _D, t0, PR, {'formula': f'{cls.__name__}: not treated as safe (left operands are kept across it)'}, backend='harness')
                     res += L.results; continue
                 out = L.guarded_emit(lambda: L.cg.get_expr_value(_asm.LabelRef(r_out), e))
                 if out is None:
@@ -234,9 +266,11 @@ def run_safe_contract(w):
                     for r in E:
                         if r != r_out and not smt.prove(L.ctx.all_pre() + list(l.cond), l.st.regs[r] == E[r]).verdict == smt.PROVED:
                             problems.append(f'evaluating it changes {r}')
-                L.add('SAFE-CONTRACT', _F if problems else _D, t0, ('C01', 'C09'),
-                      {'formula': f'is_safe accepts {cls.__name__}: its code writes only {r_out} (no child, event, store; other named words unchanged)',
-                       'message': '; '.join(sorted(set(problems)))})
+                det = {'formula': f'is_safe accepts {cls.__name__}: its code writes only {r_out} (no child, event, store; other named words unchanged)',
+                       'message': '; '.join(sorted(set(problems)))}
+                if problems:
+                    det['replay'] = replay_safe(w, unchecked)
+                L.add('SAFE-CONTRACT', _F if problems else _D, t0, PR, det)
             finally:
                 L.close()
             res += L.results
@@ -247,6 +281,7 @@ def tasks(tier):
     out = []
     for w in WIDTHS[tier]:
         out.append(task(MOD, 'run_safe_contract', ('C01', 'C09', 'C10'), label=f'expr/is_safe/w{w}', cost=5, w=w))
+        out.append(task(MOD, 'run_safe_contract', ('C01', 'C09', 'C10', 'C15'), label=f'expr/is_safe/w{w}/u1', cost=5, w=w, unchecked=True))
     for w in WIDTHS[tier]:
         for unchecked in (False, True):
             for family, ops in FAMILIES.items():
